@@ -285,3 +285,125 @@ Definition f64_ninf_agrees (m : list (list (cell F64.t))) : bool :=
       (disc_cell F64Ops offset scale CNInf =? disc_cell F64Ops offset scale (CFin F64.ninf))%Z
   | _ => true
   end.
+
+(* ---------- words (for the statement of the discretisation error) ----------
+   a word selects one column index per row; its score is defined when every selected
+   cell is finite, its discretised score when no selected cell is skipped *)
+Fixpoint word_S (m : list (list (cell Q))) (w : list nat) : option Q :=
+  match m, w with
+  | [], [] => Some 0
+  | row :: m', a :: w' =>
+      match nth_error row a with
+      | Some (CFin x) => option_map (Qplus x) (word_S m' w')
+      | _ => None
+      end
+  | _, _ => None
+  end.
+
+Fixpoint word_D (data : list (list Z)) (w : list nat) : option Z :=
+  match data, w with
+  | [], [] => Some 0%Z
+  | row :: d', a :: w' =>
+      match nth_error row a with
+      | Some s => if (s =? i32_min)%Z then None else option_map (Z.add s) (word_D d' w')
+      | None => None
+      end
+  | _, _ => None
+  end.
+
+(* Background::new: every frequency in [0,1] and the f32 sum (from 0.0, in order) == 1.0 *)
+Definition bg_new_ok (bg : list F32.t) : bool :=
+  forallb (fun f => F32.le F32.zero f && F32.le f (F32.of_Z 1)) bg &&
+  F32.eq (fold_left F32.add bg F32.zero) (F32.of_Z 1).
+
+(* inputs of the binary64 model from f32 bit patterns (what the driver does) *)
+Definition f32_cell (bits : Z) : cell F64.t := CFin (F64.of_f32 (F32.of_bits bits)).
+Definition f32_val (bits : Z) : F64.t := F64.of_f32 (F32.of_bits bits).
+Definition q_cell_of_bits (bits : Z) : cell Q := f64_cell (f32_val bits).
+
+(* ---------- the executable checker of property C11 on observations ----------
+   Inputs: the matrix [m] (cells: f32 widened to f64; -inf wildcard as IEEE -inf) and the
+   background [bg] (f32 widened), the observed table [sf], the observed (score, pvalue)
+   probes [pv], the subset [br] of them selected for the bracket check (finite scores;
+   empty when the word table would be too large), the observed (p, pvalue(score(p)))
+   round trips [rt].  The exact tails are those of the dyadic matrix [c11_qm m] under the
+   weights [c11_qbg bg] (cell z / 2^k, weight n / 2^j: exactly the values of the floats). *)
+
+Definition qcell (k : Z) (o : option Z) : cell Q :=
+  match o with Some z => CFin (dy_value k z) | None => CNInf end.
+Definition qweight (j : Z) (n : Z) : Q := inject_Z n / inject_Z (2 ^ j).
+
+Definition c11_k (m : list (list F64.t)) : Z := common_k (concat (map (map f64_me) m)).
+Definition c11_zc (m : list (list F64.t)) : list (list (option Z)) := dy_cells (c11_k m) (map (map f64_me) m).
+Definition c11_j (bg : list F64.t) : Z := common_k (map f64_me bg).
+Definition c11_zb (bg : list F64.t) : list Z :=
+  map (fun x => match f64_me x with Some me => at_k (c11_j bg) me | None => 0%Z end) bg.
+Definition c11_qm (m : list (list F64.t)) : list (list (cell Q)) := map (map (qcell (c11_k m))) (c11_zc m).
+Definition c11_qbg (bg : list F64.t) : list Q := map (qweight (c11_j bg)) (c11_zb bg).
+
+(* the property's domain: at least one row, rows as long as the background, every cell finite
+   except that the last (wildcard) cell may be -inf; finite background weights *)
+Definition scope_row (n : nat) (row : list F64.t) : bool :=
+  (length row =? n)%nat && forallb F64.is_finite (removelast row) &&
+  (let w := last row F64.nan in F64.is_finite w || F64.is_neg_inf w).
+Definition c11_in_scope (m : list (list F64.t)) (bg : list F64.t) : bool :=
+  match m with [] => false | _ => true end &&
+  forallb (scope_row (length bg)) m && forallb F64.is_finite bg.
+
+Definition eps30 : Q := 1 # 1073741824.
+Definition c11_delta (m : list (list F64.t)) (bg : list F64.t) : Q := mass_defect (c11_qbg bg) (length m).
+
+(* failure kinds: 1 table entry outside [0,1]; 2 table increases; 3 p-value below the lower
+   bracket; 4 above the upper bracket; 5 p-value not finite; 6 p-values not monotone;
+   7 round trip yields a larger p-value.  The second component is an index into the
+   corresponding list (0 for kinds 1, 2, 6). *)
+Definition c11_table_fails (sf : list F64.t) : list (nat * nat) :=
+  match f64_chk_table sf with O => [] | S O => [(1, 0)%nat] | _ => [(2, 0)%nat] end.
+
+Definition c11_bracket_one (tab : list (Z * Z)) (k j : Z) (scale : Q) (M : Z) (delta : Q) (sp : F64.t * F64.t) : nat :=
+  if F64.is_finite (fst sp) && F64.is_finite (snd sp) then
+    match chk_bracket_dy tab k j scale M eps30 delta (f64_to_Q (fst sp)) (f64_to_Q (snd sp)) with
+    | O => 0 | S O => 3 | _ => 4
+    end%nat
+  else 5%nat.
+
+Fixpoint c11_index_fails (i : nat) (codes : list nat) : list (nat * nat) :=
+  match codes with
+  | [] => []
+  | O :: r => c11_index_fails (S i) r
+  | c :: r => (c, i) :: c11_index_fails (S i) r
+  end.
+
+Definition c11_bracket_fails (m : list (list F64.t)) (bg : list F64.t) (br : list (F64.t * F64.t)) : list (nat * nat) :=
+  match br with
+  | [] => []
+  | _ =>
+    match q_stage_a (c11_qm m) with
+    | Ok (_, scale) =>
+        if Qle_bool scale 0 then []
+        else
+          let tab := word_tableZ (c11_zc m) (c11_zb bg) in
+          c11_index_fails 0 (map (c11_bracket_one tab (c11_k m) (c11_j bg) scale (Z.of_nat (length m)) (c11_delta m bg)) br)
+    | _ => []
+    end
+  end.
+
+Definition c11_rt_one (delta : Q) (pr : F64.t * F64.t) : nat :=
+  if in_open01 F64Ops (fst pr) then
+    if leb_n F64Ops (snd pr) (fst pr) then 0%nat
+    else if F64.is_finite (snd pr) &&
+            Qle_bool (f64_to_Q (snd pr)) (f64_to_Q (fst pr) * (1 + eps30) + delta) then 0%nat
+    else 7%nat
+  else 0%nat.
+
+Definition check_C11_fails (m : list (list F64.t)) (bg : list F64.t) (sf : list F64.t)
+    (pv br rt : list (F64.t * F64.t)) : list (nat * nat) :=
+  if c11_in_scope m bg then
+    c11_table_fails sf ++ c11_bracket_fails m bg br ++
+    (if f64_chk_mono pv then [] else [(6, 0)%nat]) ++
+    c11_index_fails 0 (map (c11_rt_one (c11_delta m bg)) rt)
+  else [].
+
+Definition check_C11 (m : list (list F64.t)) (bg : list F64.t) (sf : list F64.t)
+    (pv br rt : list (F64.t * F64.t)) : bool :=
+  match check_C11_fails m bg sf pv br rt with [] => true | _ => false end.
